@@ -103,7 +103,11 @@ def local_name_re(body):
 def canon(rx, s):
     # compiler temporaries left unexpanded (loop-carried values) carry MIR local numbers that shift with any edit of the function
     s = re.sub(r'(?<![\w.:$])_\d+\b', '_t', s)
-    return rx.sub('$', s) if rx is not None else s
+    # string literals are operands (a parsed literal is only valid as that literal): kept, and never subject to name replacement
+    if rx is None:
+        return s
+    parts = re.split(r'("[^"]*")', s)
+    return ''.join(p if i % 2 else rx.sub('$', p) for i, p in enumerate(parts))
 
 
 def norm_try(t):
@@ -202,6 +206,8 @@ def panic_sites(body):
                     continue
                 args = [S(body.operand_term(a)) for a in t['args']]
                 cargs = [canon(rx, tstr(norm_try(expand(body.operand_term(a))))) for a in t['args']]
+                if re.search(r'::expect(_err)?$', fi['def']) and len(cargs) == 2 and cargs[1].startswith('"'):
+                    cargs[1] = '"_"'        # the panic message of expect() is not part of the site's identity
                 def fmt(args):
                     if kind in ('panic', 'assert'):
                         return '%s(%s)' % (short_name(fi['def']), (args[0] if args else '')[:100])
@@ -664,12 +670,17 @@ class Audit:
             for e in data.get('entries', []):
                 self.entries[(e['fn'], e['kind'], e['desc'])] = e
                 if e.get('cdesc'):
-                    self.centries[(e['fn'], e['kind'], e['cdesc'])] = e
+                    self.centries.setdefault((e['fn'], e['kind'], e['cdesc']), []).append(e)
 
     def lookup(self, site):
         # entries are matched on the name-free form of the expression (local variable names replaced by `$`), so that
         # renaming a local variable does not re-open an audited site; the readable form is kept for reports
-        e = self.centries.get(site.ckey())
+        # several audited sites of one function may share a name-free form (e.g. two literals parsed alike): first entry with budget left
+        e = None
+        for c in self.centries.get(site.ckey(), []):
+            if self.used[id(c)] < c.get('count', 1):
+                e = c
+                break
         if e is None:
             e = self.entries.get(site.key())
         if e is None:
